@@ -185,19 +185,24 @@ def dropTo (x : Nat) : List Nat → List Nat
   | [] => []
   | d :: rest => if d = x then d :: rest else dropTo x rest
 
+/-- `classes[idx:]` after `ast_is_supported_super_call` -/
+def superCtx (frm : Option Nat) (ctx : List Nat) : List Nat :=
+  match frm with
+  | none => ctx
+  | some x => dropTo x ctx
+
+/-- `get_mro_parameters` from the current index -/
+def superFrameAt (P : Prog) (root : Nat) : List Nat → Option Frame
+  | [] => none
+  | _ :: tl =>
+    match nextInit P tl with
+    | some (d, s) => some (.init root d s)
+    | none => none
+
 /-- frame resolved by a `super(...).__init__(…)` call, `none` = nothing found (`[]`) -/
 def superFrame (P : Prog) (wh : Where) (frm : Option Nat) : Option Frame :=
   match wh with
-  | .init root _ ctx =>
-    let ctx' := match frm with
-      | none => ctx
-      | some x => dropTo x ctx
-    match ctx' with
-    | [] => none
-    | _ :: tl =>
-      match nextInit P tl with
-      | some (d, s) => some (.init root d s)
-      | none => none
+  | .init root _ ctx => superFrameAt P root (superCtx frm ctx)
   | _ => none
 
 /-- `get_node_component` -/
@@ -724,5 +729,58 @@ def WfProg (P : Prog) : Bool := allIdx (entryOK P) 0 P.entries
 def CId.valid (P : Prog) : CId → Bool
   | .entry i => decide (i < P.entries.length)
   | .cmeth c _ => decide (c < P.entries.length)
+
+/-! ### where an offered parameter can come from (`C13_keeps_sig`) -/
+
+/-- the pseudo-parameter a `kwargs.pop/get` statement defines -/
+def useDefs : Use → List Param
+  | .pop n d => [popParam n d]
+  | .get n d => [popParam n d]
+  | _ => []
+
+/-- the definitions of one callable: its signature and its pops/gets -/
+def callableDefs (c : Callable) : List Param :=
+  c.params ++ c.uses.flatMap (fun g => useDefs g.use)
+
+def entryCallables : Entry → List Callable
+  | .fn c => [c]
+  | .cls k => k.init.toList ++ k.meths ++ k.cmeths
+
+def Prog.callables (P : Prog) : List Callable := P.entries.flatMap entryCallables
+
+/-- every definition of a named parameter in the program -/
+def Prog.defs (P : Prog) : List Param := P.callables.flatMap callableDefs
+
+def Dflt.isCond : Dflt → Bool
+  | .cond _ => true
+  | _ => false
+
+/-- `p` carries the name, type, default and kind of the definition `q` -/
+def sameSig (p q : Param) : Prop :=
+  q.name = p.name ∧ q.ty = p.ty ∧ q.dflt = p.dflt ∧ q.kind = p.kind
+
+/-! ### no clash between a popped name and another definition (`C13_no_crash`) -/
+
+def usePops : Use → List (String × DVal)
+  | .pop n d => [(n, d)]
+  | .get n d => [(n, d)]
+  | _ => []
+
+/-- every `kwargs.pop/get(name, default)` of the program -/
+def Prog.pops (P : Prog) : List (String × DVal) :=
+  P.callables.flatMap (fun c => c.uses.flatMap (fun g => usePops g.use))
+
+/-- `unique` sees the default of a definition and the pop default `d` as one value (or there is no default) -/
+def dfltAgrees (d : DVal) : Dflt → Bool
+  | .empty => true
+  | .val v => v.key == d.key
+  | .cond _ => false
+
+/-- decidable: wherever a popped name is also defined (a parameter of any callable, another pop) the
+    defaults agree — then `group_parameters` never builds a `Conditional` parameter on straight-line
+    bodies; and the program text itself holds no `Conditional` default / tuple origin -/
+def noPopClash (P : Prog) : Bool :=
+  P.pops.all (fun x => P.defs.all (fun q => q.name != x.1 || dfltAgrees x.2 q.dflt)) &&
+  P.defs.all (fun q => !q.otuple && !q.dflt.isCond)
 
 end Jap.Resolver
